@@ -4,6 +4,8 @@ import Driver.OpsView
 import Driver.OpsPack
 import Driver.OpsContent
 import Driver.OpsPipeline
+import Driver.OpsDir
+import Driver.OpsSearch
 
 open Jubako Jubako.Driver
 
@@ -28,6 +30,9 @@ def dispatch (line : String) : IO String := do
   | "cp.decode" :: args => runContent fileOf "cp.decode" args
   | "cp.encode" :: args => runContent fileOf "cp.encode" args
   | "hist.pipeline" :: args => runPipelineHist fileOf args
+  | "dp.decode" :: args => runDir fileOf "dp.decode" args
+  | "dp.encode" :: args => runDirEncode fileOf args
+  | "find" :: args => return runFind args
   | ["ping"] => return "pong"
   | _ => return "bad-op"
 
